@@ -153,8 +153,15 @@ def generate(src):
         oblige(st, "handle/join after terminate  [C17]", st.ghost.get('terminated') == a if 'terminated' in st.ghost else BoolVal(False))
         assert not e.args and not e.keywords, "join with timeout does not guarantee death"
         setG(st, alive=Store(g['alive'], a, False), reaped=Store(g['reaped'], a, True), joined=Store(g['joined'], a, True)); return k(st, None)
+
+    def daemon_ok(st_, kw, where):
+        # multiprocessing's exit handler of the MANAGER process terminates (SIGTERM) every live daemonic child: a worker that was already sent SIGINT on
+        # shutdown and is finishing its tasks would get a second signal. Workers are therefore created non-daemonic.
+        d = kw.get('daemon')
+        oblige(st_, f"{where}/Process(daemon=False): workers are not daemonic (a daemonic child is terminated again by the manager's exit handler: two signals on shutdown)  [C18]",
+               Not(truthy(d, st_)) if d is not None else BoolVal(True), props=['C18'])
     def h_Process(ex, st, e, recv, args, kw, k, K):
-        a = fresh('proc', IntSort()); g = st.ghost
+        daemon_ok(st, kw, 'handle'); a = fresh('proc', IntSort()); g = st.ghost
         st.pc += [Not(g['started'][a]), Not(g['alive'][a]), Not(g['joined'][a]), Not(g['reaped'][a])]; return k(st, PyObj(a, 'Process'))
     def h_start(ex, st, e, recv, args, kw, k, K):
         a = addr_of(recv); g = st.ghost; slot = st.env['__slot']
@@ -374,7 +381,7 @@ def generate(src):
                         count=gx['nstarts'] == ix, field=hh.field('workers')[self_a] == Val.ref(wl_a))
         stp.ghost['pname'] = K(IntSort(), IntVal(-1))
         def h_Process2(ex_, st_, e, recv, args, kw, k, K):
-            a = fresh('proc', IntSort()); gx = st_.ghost
+            daemon_ok(st_, kw, 'prepare_workers'); a = fresh('proc', IntSort()); gx = st_.ghost
             st_.pc += [Not(gx['started'][a]), Not(gx['alive'][a]), Not(gx['joined'][a]), Not(gx['reaped'][a]), a != wl_a, a != self_a, a != args_a]
             nm = kw.get('name'); idx = st_.env.get('__slot')
             oblige(st_, "prepare_workers/Process: named worker-<slot> and not a daemon  [C17]", BoolVal(isinstance(nm, tuple) and nm[0] == 'worker-name' and kw.get('daemon') is False))
@@ -444,7 +451,18 @@ def generate(src):
                 if ast.unparse(e) == "sys.platform != 'win32'": return k(st_, PyBool(BoolVal(True)))
                 return super().ev_Compare(e, st_, k, K)
             def ev_BoolOp(self, e, st_, k, K): return k(st_, PyBool(fresh('cond', BoolSort())))
-        exi = ExI({'logger.*': noop, 'Queue': lambda ex_, st_, e, r, a, kw, k, K: k(st_, 'QUEUE'), 'get_signal_handler': h_gsh, 'signal.signal': h_signal, 'observer.schedule': noop, 'FileWatcher': noop,
+        def h_Queue(ex_, st_, e, r, a, kw, k, K):
+            # the manager loop is the ONLY consumer of the action queue and is itself a producer (ReloadAllAction.handle, the liveness scan, the signal handlers run
+            # in its thread): with a capacity, put() blocks the loop in its own put once the queue is full - nothing is restarted or shut down any more.
+            cap = a[0] if a else kw.get('maxsize', 0)
+            if isinstance(cap, int): cap = PyInt(IntVal(cap))
+            if not isinstance(cap, PyInt):
+                mc = [n_.value for n_ in src.tree(REL).body if isinstance(n_, ast.Assign) and e.args and isinstance(e.args[0], ast.Name) and any(isinstance(t_, ast.Name) and t_.id == e.args[0].id for t_ in n_.targets)]
+                cap = PyInt(IntVal(mc[0].value)) if len(mc) == 1 and isinstance(mc[0], ast.Constant) and isinstance(mc[0].value, int) else None
+            if cap is None: sx = st_.fork(); approx(sx, "capacity of the action queue: " + ast.unparse(e)); oblige(sx, "__init__/action queue: unbounded (maxsize <= 0): the manager loop never blocks in its own put  [C17/C18]", BoolVal(False), props=['C17', 'C18'])
+            else: oblige(st_, "__init__/action queue: unbounded (maxsize <= 0): the manager loop never blocks in its own put  [C17/C18]", cap.e <= 0, props=['C17', 'C18'])
+            return k(st_, 'QUEUE')
+        exi = ExI({'logger.*': noop, 'Queue': h_Queue, 'get_signal_handler': h_gsh, 'signal.signal': h_signal, 'observer.schedule': noop, 'FileWatcher': noop,
                    'ShutdownAction': lambda ex_, st_, e, r, a, kw, k, K: k(st_, 'SHUTDOWN'), 'ReloadAllAction': lambda ex_, st_, e, r, a, kw, k, K: k(st_, 'RELOADALL')})
         sti = State(); sti.env = {'self': PyObj(Int('self_i')), 'args': PyObj(Int('args_i')), 'worker_function': fresh('wf'), 'observer': fresh('obs')}
         wrote = {}
